@@ -4,7 +4,9 @@
 (* specification requires (ideal and as-is).  Each initial state is one case. *)
 EXTENDS Transclusion, Json
 
-CONSTANTS Universe, Known   \* "Q" | "T";  Known = deviations currently listed as findings
+CONSTANTS Universe, Known,  \* "Q" | "T";  Known = deviations currently listed as findings
+          Slice             \* 0 = the whole universe; i > 0 = the i-th part of it (see T1Seq; the harness walks
+                            \* through the parts of the thorough universe one at a time to bound its memory)
 
 KnownC04 == {"ArgTrailingNewlineDropped"}
 NumKeyDev == "ComputedNumericKeyNotPositional"   \* see Transclusion.tla; family K below
@@ -70,6 +72,18 @@ NamePages == { <<Call(n, <<Pos(<<Txt(<<"a">>)>>), Named(<<"x">>, <<Call("SP", <<
 Libs == { ("T1" :> b1) @@ ("T2" :> b2) @@ ("SP" :> SpBody) :
             b1 \in (IF Universe = "Q" THEN T1BodiesQ ELSE T1Bodies),
             b2 \in (IF Universe = "Q" THEN T2BodiesQ ELSE T2Bodies) }
+
+\* parts of the universe: part i holds the libraries whose T1 is T1Seq[i]; the small families (NamePages, N, K)
+\* belong to part 1
+T1Seq == <<Plain(BodyShow), Plain(BodyShow2), Plain(BodyStar), Plain(BodyParFirst), Plain(BodyDefPar),
+           <<Seg("noinclude", <<Txt(<<"doc">>)>>), Seg("plain", BodyShow), Seg("comment", <<Txt(<<"zz">>)>>)>>,
+           <<Seg("plain", <<Txt(<<"out">>)>>), Seg("onlyinclude", BodyParFirst), Seg("plain", <<Txt(<<"out">>)>>),
+             Seg("onlyinclude", <<Txt(<<"+">>)>>)>>,
+           <<Seg("includeonly", BodyParFirst), Seg("noinclude", <<Txt(<<"doc">>)>>)>> >>
+ASSUME {T1Seq[i] : i \in 1..Len(T1Seq)} = T1Bodies   \* the parts cover the thorough universe
+ASSUME Slice = 0 \/ (Universe = "T" /\ Slice \in 1..Len(T1Seq))
+LibsSel == IF Slice = 0 THEN Libs ELSE { l \in Libs : l["T1"] = T1Seq[Slice] }
+Small == Slice \in {0, 1}
 
 (* ---------------- pages ---------------- *)
 Values == { <<Txt(t)>> : t \in Texts }
@@ -211,10 +225,10 @@ ASSUME LawSameWriting
 
 (* ---------------- generator ---------------- *)
 VARIABLES lib, page, fam
-Init == \/ (lib \in Libs /\ page \in Pages /\ fam = "G")
-        \/ (lib \in LibsR \cup Libs /\ page \in NamePages /\ fam = "G")
-        \/ (lib = LibN /\ page \in PagesN /\ fam = "N")
-        \/ (lib = LibN /\ page \in PagesK /\ fam = "K")
+Init == \/ (lib \in LibsSel /\ page \in Pages /\ fam = "G")
+        \/ (Small /\ lib \in LibsR \cup Libs /\ page \in NamePages /\ fam = "G")
+        \/ (Small /\ lib = LibN /\ page \in PagesN /\ fam = "N")
+        \/ (Small /\ lib = LibN /\ page \in PagesK /\ fam = "K")
 Next == UNCHANGED <<lib, page, fam>>
 Spec == Init /\ [][Next]_<<lib, page, fam>>
 
